@@ -187,27 +187,29 @@ theorem resolve_terminates (fs presets : List (Name × Value)) (fuel : Nat) (nam
       · simp [resolve, hl, hd]
       · by_cases hc : name ∈ visited
         · simp [resolve, hl, hd, hc]
-        · cases hx : extendsOf v with
-          | none => simpa [resolve, hl, hd, hc, hx] using wrapFinish_ne_oof _ _
-          | some e =>
-            by_cases hp : presetPrefix.isPrefixOf e = true
-            · cases hpl : lookup presets (e.drop presetPrefix.length) with
-              | none => simp [resolve, hl, hd, hc, hx, hp, hpl]
-              | some base => simpa [resolve, hl, hd, hc, hx, hp, hpl] using wrapFinish_ne_oof _ _
-            · by_cases hr : isRemote e = true
-              · simp [resolve, hl, hd, hc, hx, hp, hr]
-              · have hrec := ih e (visited ++ [name]) (depth + 1) (by omega) (by omega)
-                cases hres : resolve fs presets n e (visited ++ [name]) (depth + 1) with
-                | error err =>
-                  simp only [resolve, hl, hd, hx, hp, hr, hres, if_false, Bool.false_eq_true,
-                    List.contains_eq_mem, hc, decide_false]
-                  intro hcontra
-                  injection hcontra with hcc
-                  subst hcc
-                  exact hrec hres
-                | ok p =>
-                  obtain ⟨b, vis⟩ := p
-                  simpa [resolve, hl, hd, hc, hx, hp, hr, hres] using wrapFinish_ne_oof _ _
+        · by_cases hb : extendsBad v = true
+          · simp [resolve, hl, hd, hc, hb]
+          · cases hx : extendsOf v with
+            | none => simpa [resolve, hl, hd, hc, hb, hx] using wrapFinish_ne_oof _ _
+            | some e =>
+              by_cases hp : presetPrefix.isPrefixOf e = true
+              · cases hpl : lookup presets (e.drop presetPrefix.length) with
+                | none => simp [resolve, hl, hd, hc, hb, hx, hp, hpl]
+                | some base => simpa [resolve, hl, hd, hc, hb, hx, hp, hpl] using wrapFinish_ne_oof _ _
+              · by_cases hr : isRemote e = true
+                · simp [resolve, hl, hd, hc, hb, hx, hp, hr]
+                · have hrec := ih e (visited ++ [name]) (depth + 1) (by omega) (by omega)
+                  cases hres : resolve fs presets n e (visited ++ [name]) (depth + 1) with
+                  | error err =>
+                    simp only [resolve, hl, hd, hb, hx, hp, hr, hres, if_false, Bool.false_eq_true,
+                      List.contains_eq_mem, hc, decide_false]
+                    intro hcontra
+                    injection hcontra with hcc
+                    subst hcc
+                    exact hrec hres
+                  | ok p =>
+                    obtain ⟨b, vis⟩ := p
+                    simpa [resolve, hl, hd, hc, hb, hx, hp, hr, hres] using wrapFinish_ne_oof _ _
 
 /-- the entry point uses `defaultFuel`, which is enough -/
 theorem resolve_default_terminates (fs presets : List (Name × Value)) (name : Name) :
@@ -227,6 +229,13 @@ theorem cycle_detected (fs presets : List (Name × Value)) (fuel : Nat) (name : 
     (hd : ¬ depth > Generated.maxExtendsDepth) (hc : name ∈ visited) :
     resolve fs presets (fuel + 1) name visited depth = .error (.circular (visited ++ [name])) := by
   simp [resolve, hfile, hd, hc]
+
+/-- an `extends` or `extends_sha256` of the wrong type is an error, not a dropped key -/
+theorem bad_extends_rejected (fs presets : List (Name × Value)) (fuel : Nat) (name : Name) (v : Value)
+    (visited : List Name) (depth : Nat) (hfile : lookup fs name = some v)
+    (hd : ¬ depth > Generated.maxExtendsDepth) (hc : name ∉ visited) (hb : extendsBad v = true) :
+    resolve fs presets (fuel + 1) name visited depth = .error .badExtends := by
+  simp [resolve, hfile, hd, hc, hb]
 
 /-- a file without a string `extends` is a leaf: no other file is consulted -/
 theorem no_extends_is_leaf (fs fs' presets presets' : List (Name × Value)) (fuel : Nat)
@@ -253,9 +262,10 @@ def chainFold : List Value → Except Err Value
     member's `extends` names the next one (a plain local reference), the base has none, all
     names are distinct and present in `fs`. -/
 inductive Chain (fs : List (Name × Value)) : List (Name × Value) → Prop where
-  | base (n : Name) (v : Value) : lookup fs n = some v → extendsOf v = none → Chain fs [(n, v)]
+  | base (n : Name) (v : Value) : lookup fs n = some v → extendsBad v = false →
+      extendsOf v = none → Chain fs [(n, v)]
   | step (n : Name) (v : Value) (m : Name) (w : Value) (rest : List (Name × Value)) :
-      lookup fs n = some v → extendsOf v = some m →
+      lookup fs n = some v → extendsBad v = false → extendsOf v = some m →
       presetPrefix.isPrefixOf m = false → isRemote m = false →
       Chain fs ((m, w) :: rest) → Chain fs ((n, v) :: (m, w) :: rest)
 
@@ -279,16 +289,16 @@ theorem resolve_fold_aux (fs presets : List (Name × Value)) (members : List (Na
     resolve fs presets fuel (leafName members) visited depth =
       (foldLeafFirst members).map (fun r => (r, visited ++ members.map (·.1))) := by
   induction hc generalizing fuel visited depth with
-  | base n v hl hx =>
+  | base n v hl hb hx =>
     cases fuel with
     | zero => simp at hfuel
     | succ f =>
       have hd : ¬ depth > Generated.maxExtendsDepth := by simp at hdepth; omega
       have hv := hfresh (n, v) (by simp)
-      simp only [leafName, resolve, hl, hd, if_false, hx, foldLeafFirst, wrapFinish,
+      simp only [leafName, resolve, hl, hd, if_false, hb, hx, foldLeafFirst, wrapFinish,
         List.contains_eq_mem, hv, decide_false, Bool.false_eq_true]
       cases finish v <;> simp [Except.map]
-  | step n v m w rest hl hx hp hr _ ih =>
+  | step n v m w rest hl hb hx hp hr _ ih =>
     cases fuel with
     | zero => simp at hfuel
     | succ f =>
@@ -312,7 +322,7 @@ theorem resolve_fold_aux (fs presets : List (Name × Value)) (members : List (Na
           · exact h2 h)
         hdistinct.2
       simp only [leafName] at hrec
-      simp only [leafName, resolve, hl, hd, if_false, hx, hp, hr, Bool.false_eq_true, hrec,
+      simp only [leafName, resolve, hl, hd, if_false, hb, hx, hp, hr, Bool.false_eq_true, hrec,
         foldLeafFirst, stepFold, wrapFinish, List.contains_eq_mem, hv, decide_false]
       cases hfold : foldLeafFirst ((m, w) :: rest) with
       | error e => simp [Except.map]
@@ -359,7 +369,12 @@ def exLeaf : Value :=
 def exFs : List (Name × Value) := [(['l'], exLeaf), (['b'], exBase)]
 
 example : Chain exFs [(['l'], exLeaf), (['b'], exBase)] :=
-  .step _ _ _ _ _ rfl rfl (by decide) (by decide) (.base _ _ rfl rfl)
+  .step _ _ _ _ _ rfl (by decide) rfl (by decide) (by decide) (.base _ _ rfl (by decide) rfl)
+
+/-- `extends = 5` (a non-string) is rejected -/
+example : (match resolve [(['l'], .tbl (.cons extendsKey (.other 1 ['5']) .nil))] [] defaultFuel ['l'] [] 0 with
+    | .error .badExtends => true
+    | _ => false) = true := by decide
 
 /-- the leaf's `[$reset, y]` replaces the inherited `[x]`; `m` is inherited; no marker is left -/
 example : (match resolve exFs [] defaultFuel ['l'] [] 0 with
